@@ -97,7 +97,7 @@ def check_dominance(chk):
         return
     for _fn, stmt, base, kind, rhs in loop_stores:
         if stmt not in prefix:
-            if any(_inside(stmt, p) for p in prefix) or _inside(stmt, disp_stmt):
+            if any(_inside(stmt, p) for p in prefix) or _inside(stmt, disp_stmt) or any(_inside(stmt, q) for q in loop.body[loop.body.index(disp_stmt):]):
                 chk.bad('C09.D', mod, func.name, f'{norm(stmt)} [conditional / late]',
                         'the counter is modified conditionally or after the dispatch has begun: there is a path from the loop head to the execution of a statement '
                         'that does not pass exactly one increment', node=stmt)
